@@ -26,7 +26,7 @@ META = {
     "assumptions": ["equality of results is established twice: identity of the EUF shadow terms (same uninterpreted operations on the same operands in the same order: bit-for-bit under any arithmetic) and solver equality over the reals",
                     "alias tracking: an in-place operator or indexed store whose target shares storage with a harness-supplied input is reported as a mutation of the input"],
 }
-LEDGER = {"quick": 1185, "thorough": 1200}
+LEDGER = {"quick": 1185, "thorough": 1500}
 
 
 def _cells(x):
